@@ -388,21 +388,12 @@ class _NumericOperationsImpl(OperationsBlock):
         if axis is not None and axis < 0:
             axis += x.ndim  # see _normalize_axes
         if axis is None:
-            reshaped_x = ndx.reshape(x, [-1])._core()
-            if keepdims:
-                return from_corearray(
-                    opx.reshape(
-                        opx.arg_max(reshaped_x, axis=0, keepdims=False),
-                        opx.const([1 for x in range(x.ndim)], dtype=dtypes.int64),
-                    )
-                )
-            else:
-                return from_corearray(
-                    opx.reshape(
-                        opx.arg_max(reshaped_x, axis=0, keepdims=False),
-                        opx.const([], dtype=dtypes.int64),
-                    )
-                )
+            out = _via_i64_f64(
+                lambda x: opx.arg_max(x, axis=0, keepdims=False),
+                [ndx.reshape(x, [-1])],
+                cast_return=False,
+            )
+            return ndx.reshape(out, [1] * x.ndim if keepdims else [])
         return _via_i64_f64(
             lambda x: opx.arg_max(x, axis=axis, keepdims=keepdims),
             [x],
@@ -414,21 +405,12 @@ class _NumericOperationsImpl(OperationsBlock):
         if axis is not None and axis < 0:
             axis += x.ndim  # see _normalize_axes
         if axis is None:
-            reshaped_x = ndx.reshape(x, [-1])._core()
-            if keepdims:
-                return from_corearray(
-                    opx.reshape(
-                        opx.arg_min(reshaped_x, axis=0, keepdims=False),
-                        opx.const([1 for x in range(x.ndim)], dtype=dtypes.int64),
-                    )
-                )
-            else:
-                return from_corearray(
-                    opx.reshape(
-                        opx.arg_min(reshaped_x, axis=0, keepdims=False),
-                        opx.const([], dtype=dtypes.int64),
-                    )
-                )
+            out = _via_i64_f64(
+                lambda x: opx.arg_min(x, axis=0, keepdims=False),
+                [ndx.reshape(x, [-1])],
+                cast_return=False,
+            )
+            return ndx.reshape(out, [1] * x.ndim if keepdims else [])
         return _via_i64_f64(
             lambda x: opx.arg_min(x, axis=axis, keepdims=keepdims),
             [x],
